@@ -92,7 +92,7 @@ NS = {
 # skeleton name -> expression over the leaves i0 i1 (int) s0 s1 (str) b0 (bool) f0 (float)
 SKEL_QUICK = OrderedDict([
     ("none", "None"), ("bool", "b0"), ("int", "i0"), ("float", "f0"), ("str", "s0"),
-    ("list0", "[]"), ("list_i", "[i0]"), ("list_s", "[s0]"), ("list_ii", "[i0, i1]"), ("list_ss", "[s0, s1]"),
+    ("list0", "[]"), ("list_i", "[i0]"), ("list_s", "[s0]"), ("list_ii", "[i0, i1]"), ("list_if", "[i0, f0]"), ("list_ss", "[s0, s1]"),
     ("tuple_i", "(i0,)"), ("nan", "NAN"), ("inf", "INF"), ("negzero", "NZ"), ("dict0", "{}"), ("dict_ki", "{K(k0): i0}"), ("dict_ii", "{KI(k0): i1}"), ("path", "P(k0)"), ("bigint_p", "g0"), ("bigint_n", "-g0"),
 ])
 SKEL_MORE = OrderedDict([
